@@ -4,6 +4,7 @@ import (
 	"bufio"
 	"context"
 	"fmt"
+	"strconv"
 	"time"
 
 	"github.com/valyala/fastjson"
@@ -159,7 +160,11 @@ func getOctoSQLValue(t octosql.Type, value *fastjson.Value) (out octosql.Value, 
 	switch t.TypeID {
 	case octosql.TypeIDFloat:
 		if value.Type() == fastjson.TypeNumber {
-			v, _ := value.Float64()
+			// fastjson's float parser can be off by one ulp (i.e. 3e-1 => 0.30000000000000004), so parse the number text exactly.
+			v, err := strconv.ParseFloat(string(value.MarshalTo(nil)), 64)
+			if err != nil {
+				v, _ = value.Float64()
+			}
 			return octosql.NewFloat(v), true
 		}
 	case octosql.TypeIDBoolean:
